@@ -24,6 +24,10 @@ CLAIMS = {
    technique="CrossHair (symbolic execution with z3, exhaustive 'Confirmed over all paths') on the real MultipleAdapters/AdapterCutter/LinkedAdapter classes with contract-stub adapters; symbolic scores, error counts, presence flags and match coordinates",
    text="Bounded symbolic checking of the selection rules on the real classes: best-of-3 (score, then errors, then first), rounds for --times 1..3 x actions x every sequence of match kinds with all match coordinates symbolic, and linked adapters for all four required/optional combinations, each compared with a reference written from the statement. Only 'Confirmed over all paths' with a refuted reachability twin counts.",
    note="Trusted: CrossHair's models of int/str/list; stub adapters return arbitrary matches satisfying the C01 contract (coordinates inside the given sequence); Rec stands in for dnaio.SequenceRecord; read text is fixed (AcN / ACGTA), coordinates -1..4 / -1..6."),
+ "C14": dict(engine="symx", design="3 C14",
+   technique="symbolic execution of qualtrim.pyx poly_a_trim_index/expected_errors (Cython parse tree) and expected_errors.h (clang JSON AST, every implicit conversion explicit) into SMT with the score table as an uninterpreted function; CrossHair for NEndTrimmer/TooManyN",
+   text="Bounded model checking: for every length up to the bound z3 decides, for all sequences over ATCGNa and both orientations, that poly_a_trim_index equals the declarative definition (max score, <= 20% other bases, shortest on ties, tails < 3 ignored) and that PolyATrimmer slices/tallies accordingly; for all byte strings (every value 0..255) and bases 33..64 that the unrolled C loop adds exactly the table entries of the qualities (exact real arithmetic, table = uninterpreted function with one axiom per constant) or returns -1 iff a byte is invalid, and that the Cython wrapper raises exactly then; the 94 constants are compared with 10^(-q/10). NEndTrimmer and TooManyN are confirmed by CrossHair over all strings of length <= 4 over ACNn.",
+   note="Trusted: z3, Cython's parser, clang's AST, symx' C-API models (differentially validated each run), CrossHair's str/regex models. Outside the claim: rounding of the double additions and the float truncation in the wrapper's declared return type (a 1e-5 relative margin makes counterexamples observable)."),
  "C13": dict(engine="symx", design="3 C13",
    technique="symbolic execution of qualtrim.pyx (Cython parse tree -> merged SMT terms, z3) against a declarative BWA oracle; bounded in read length",
    text="Bounded model checking of the real kernels: for every read length up to the bound the solver decides, for all quality strings, cut-offs, bases and both quality bases, that quality_trim_index/nextseq_trim_index equal the declarative BWA definition; QualityTrimmer/NextseqQualityTrimmer slicing and trimmed_bases are executed from source on top. Not a proof: lengths beyond the bound are outside the claim.",
